@@ -787,3 +787,86 @@ func runLenBeforeEnd(rc *RuleCtx) {
 		}
 	}
 }
+
+// ---------------------------------------------------------------------------------------------
+// PARSEWIDTH
+// ---------------------------------------------------------------------------------------------
+
+func init() {
+	register(&Rule{
+		Name:     "PARSEWIDTH",
+		Doc:      "text is parsed at the width of the kind it is stored as: when the result of strconv.ParseInt / ParseUint(…, bitSize) is narrowed by a conversion to an integer type of fewer bits than bitSize, the conversion is control-dependent on an ordered comparison of the parsed value (an explicit range check). Parsing at 64 bits and casting made `?small=70000` into an i16 field the value 4464 and `?b=300` into a byte 44, silently (HTTP query, header, cookie, path and form sources all go through DecodeText)",
+		Configs:  "NP",
+		Floor:    map[string]int{"N": 6, "P": 6},
+		Controls: 1,
+		Run:      runParseWidth,
+	})
+}
+
+func runParseWidth(rc *RuleCtx) {
+	bits := func(b *types.Basic) int64 {
+		switch b.Kind() {
+		case types.Int8, types.Uint8:
+			return 8
+		case types.Int16, types.Uint16:
+			return 16
+		case types.Int32, types.Uint32:
+			return 32
+		}
+		return 64
+	}
+	for _, fn := range rc.W.Funcs {
+		if fn.Blocks == nil || strings.HasPrefix(pkgRel(fn), "testdata") {
+			continue
+		}
+		for _, b := range fn.Blocks {
+			for _, ins := range b.Instrs {
+				cv, ok := ins.(*ssa.Convert)
+				if !ok {
+					continue
+				}
+				ex, ok := cv.X.(*ssa.Extract)
+				if !ok || ex.Index != 0 {
+					continue
+				}
+				call, ok := ex.Tuple.(*ssa.Call)
+				if !ok {
+					continue
+				}
+				n := strconvCallee(call)
+				if n != "ParseInt" && n != "ParseUint" {
+					continue
+				}
+				dst, ok := cv.Type().Underlying().(*types.Basic)
+				if !ok || dst.Info()&types.IsInteger == 0 {
+					continue
+				}
+				size, isC := constInt(call.Call.Args[2])
+				if !isC {
+					continue
+				}
+				if size == 0 {
+					size = 64
+				}
+				rc.Examined++
+				good := bits(dst) >= size
+				if !good {
+					for _, cd := range controllingIfs(b) {
+						k, _ := condKey(cd.cond)
+						if bo, ok := k.(*ssa.BinOp); ok {
+							switch bo.Op {
+							case token.LSS, token.LEQ, token.GTR, token.GEQ:
+								if bo.X == ssa.Value(ex) || bo.Y == ssa.Value(ex) {
+									good = true
+								}
+							}
+						}
+					}
+				}
+				rc.verdict(good, fn, fmt.Sprintf("strconv.%s(…, %d) → %s", n, size, dst.Name()), cv.Pos(), map[bool]string{
+					true:  "the text is parsed at (or range-checked to) the width it is stored at",
+					false: fmt.Sprintf("the value is parsed at %d bits and then cut to %s with no range check: out-of-range text is stored as a different number, silently", size, dst.Name())}[good], true)
+			}
+		}
+	}
+}
